@@ -778,10 +778,10 @@ impl Prop for C14 {
             for ci in 0..plan.channels.len() {
                 let np = plan.channels[ci].payments.len();
                 if np > 0 && sch.chance(2, 3) {
-                    plan.entropy.push((ci, sch.usize(np) as i32, "start".into(), sch.usize(92), 1));
+                    plan.entropy.push(EntropyPlan { chan: ci, pay: sch.usize(np) as i32, op: "start".into(), at: sch.usize(92), width: 1, kind: "zeros".into() });
                 }
                 if sch.chance(1, 2) {
-                    plan.entropy.push((ci, 9999, "close".into(), 0, 1));
+                    plan.entropy.push(EntropyPlan { chan: ci, pay: 9999, op: "close".into(), at: 0, width: 1, kind: "zeros".into() });
                 }
             }
         }
@@ -880,6 +880,18 @@ impl Prop for C20 {
                             plan.crash_steps.push((c, st));
                         }
                     }
+                }
+            }
+        }
+        if idx % 5 == 4 {
+            // both twins also meet an entropy fault (close-tag bytes or zeros at a drawn draw of
+            // new / start): whatever state results must still be restorable
+            for ci in 0..plan.channels.len() {
+                let kind = if sch.chance(2, 3) { "closetag" } else { "zeros" };
+                plan.entropy.push(EntropyPlan { chan: ci, pay: -1, op: "new".into(), at: sch.usize(12), width: 1 + sch.usize(2), kind: kind.into() });
+                let np = plan.channels[ci].payments.len();
+                if np > 0 {
+                    plan.entropy.push(EntropyPlan { chan: ci, pay: sch.usize(np) as i32, op: "start".into(), at: sch.usize(8), width: 1 + sch.usize(2), kind: kind.into() });
                 }
             }
         }
